@@ -5,6 +5,7 @@ import json
 import math
 import multiprocessing
 import random
+import sys
 
 from common import *   # noqa: F401,F403
 import common
@@ -1112,6 +1113,66 @@ def norm_spec(m, r):
 NORMALIZERS['spec'] = norm_spec
 SUITES['spec'] = suite_spec
 
+
+# ------------------------------------------------------------------ re-running one join request in a FRESH interpreter (C12)
+def uncell(c):
+    if c is None:
+        return None
+    if 's' in c:
+        return c['s']
+    if 'i' in c:
+        return c['i']
+    if 'f' in c:
+        return hex2f(c['f'])
+    if 'o' in c and c['o'].startswith('bool:'):
+        return c['o'] == 'bool:True'
+    return c.get('o')
+
+
+def frame_of_request(fr):
+    if fr is None:
+        return None
+    cols = {}
+    for j, name in enumerate(fr['columns']):
+        vals = [uncell(r[j]) for r in fr['rows']]
+        dt = fr['dtypes'][j] if j < len(fr.get('dtypes', [])) else 'object'
+        if dt == 'object':
+            cols[name] = pd.Series(vals, dtype=object)
+        elif dt == 'str':
+            cols[name] = pd.Series(vals, dtype='str')
+        elif dt == 'int':
+            cols[name] = pd.Series(vals, dtype='int64')
+        elif dt == 'float':
+            cols[name] = pd.Series(vals, dtype='float64')
+        else:
+            cols[name] = pd.Series(vals)
+    df = pd.DataFrame(cols, columns=fr['columns'])
+    idx = [uncell(x) for x in fr.get('index', [])]
+    if len(idx) == len(df) and idx:
+        df.index = idx
+    return df
+
+
+def real_of_join_request(req):
+    """execute the real join a 'join' request describes (tokenizer rebuilt from its description, frames from their
+    canonical form) and return the canonical real answer"""
+    td = req['tokenizer']
+    ts = TokSpec(td['kind'], return_set=td['return_set'], qval=td.get('qval', 2), padding=td.get('padding', True), delims=td.get('delims'))
+    L, R = frame_of_request(req['ltable']), frame_of_request(req['rtable'])
+    t = uncell(req['threshold']) if isinstance(req['threshold'], dict) else req['threshold']
+    kw = {'comp_op': req['comp_op'], 'allow_missing': req['allow_missing'], 'l_out_attrs': req['l_out'], 'r_out_attrs': req['r_out'],
+          'l_out_prefix': req['l_pre'], 'r_out_prefix': req['r_pre'], 'out_sim_score': req['out_sim_score'], 'n_jobs': req['n_jobs']}
+    if req['which'] not in ('overlap', 'edit_distance'):
+        kw['allow_empty'] = req['allow_empty']
+    return real_join(req['which'], ts, L, R, req['l_key'], req['r_key'], req['l_attr'], req['r_attr'], t, kw)
+
+
+
+if __name__ == '__main__' and len(sys.argv) > 2 and sys.argv[1] == '--fresh-join':
+    # fresh-interpreter replay of join requests: file with a JSON list of requests -> JSON list of canonical answers
+    reqs = json.load(open(sys.argv[2]))
+    print(json.dumps([real_of_join_request(r) for r in reqs]))
+    sys.exit(0)
 
 if __name__ == '__main__':
     import sys
